@@ -164,8 +164,21 @@ def K1(F, rep, R):
                 if callers and all(c[3] or entered_held.get((c[0]['simple'], c[0]['sig'])) for c in callers):
                     entered_held[key] = True
                     changed = True
+        # private helpers whose callers are all constructors / destructors (or such helpers) run while no other thread can have the object
+        exclusive = {}
+        changed = True
+        while changed:
+            changed = False
+            for fn in meths:
+                key = (fn['simple'], fn['sig'])
+                if exclusive.get(key) or locks_itself[key] or fn.get('access') != 2 or fn.get('kind') in ('ctor', 'dtor'):
+                    continue
+                callers = [c for c in calls_held if c[1] == fn['simple'] and c[2] == fn['sig']]
+                if callers and all(c[0].get('kind') in ('ctor', 'dtor') or exclusive.get((c[0]['simple'], c[0]['sig'])) for c in callers):
+                    exclusive[key] = True
+                    changed = True
         for (fn, field, line, held) in accesses:
-            if fn.get('kind') in ('ctor', 'dtor'):
+            if fn.get('kind') in ('ctor', 'dtor') or exclusive.get((fn['simple'], fn['sig'])):
                 continue
             rep.count('K1')
             ok = held
@@ -211,6 +224,13 @@ def wait_sites(F, R):
                             if x.get('k') == 'Lambda':
                                 lam = x
                                 break
+                    if lam is None:
+                        # a named predicate:  const auto dataOrEnd = [&] { ... };  cv.wait(lock, dataOrEnd);
+                        for a in args[1:]:
+                            for x in walk(deep_resolve(a, fn)):
+                                if x.get('k') == 'Lambda':
+                                    lam = x
+                                    break
                     lock_ok = False
                     a0 = strip_all_casts(args[0]) if args else None
                     if isinstance(a0, dict) and a0.get('k') == 'Ref' and a0.get('id') in lockvars:
@@ -296,13 +316,49 @@ def expand_pred(e, F, cls, fn, depth=0):
     return out
 
 
-def split_or(e):
+_NEGOP = {'<': '>=', '<=': '>', '>': '<=', '>=': '<', '==': '!=', '!=': '=='}
+
+
+def split_or(e, neg=False):
+    """the disjuncts of a predicate in negation normal form: !(a && b) is !a || !b, !(x >= y) is x < y, !!a is a"""
     e = strip(e)
-    while isinstance(e, dict) and e.get('k') == 'Cast':
+    while isinstance(e, dict) and (e.get('k') in ('Cast', 'Paren')) and e.get('sub') is not None:
         e = strip(e['sub'])
-    if isinstance(e, dict) and e.get('k') == 'Bin' and e.get('op') == '||':
-        return split_or(e['lhs']) + split_or(e['rhs'])
-    return [e]
+    if isinstance(e, dict) and e.get('k') == 'Un' and e.get('op') == '!':
+        return split_or(e['sub'], not neg)
+    if isinstance(e, dict) and e.get('k') == 'Bin' and e.get('op') == ('&&' if neg else '||'):
+        return split_or(e['lhs'], neg) + split_or(e['rhs'], neg)
+    if not neg:
+        return [e]
+    return [_negated(e)]
+
+
+def _negated(e):
+    if isinstance(e, dict) and (e.get('k') == 'Bin' or (e.get('k') == 'Call' and e.get('ck') == 'operator' and len(e.get('args', [])) == 2)) and e.get('op') in _NEGOP:
+        return dict(e, op=_NEGOP[e['op']])
+    return {'k': 'Un', 'op': '!', 'sub': e, 't': 'bool', 'l': e.get('l') if isinstance(e, dict) else None}
+
+
+def split_and(e, neg=False):
+    """the conjuncts of a predicate in negation normal form: !(a || b) is !a && !b"""
+    e = strip(e)
+    while isinstance(e, dict) and (e.get('k') in ('Cast', 'Paren')) and e.get('sub') is not None:
+        e = strip(e['sub'])
+    if isinstance(e, dict) and e.get('k') == 'Un' and e.get('op') == '!':
+        return split_and(e['sub'], not neg)
+    if isinstance(e, dict) and e.get('k') == 'Bin' and e.get('op') == ('||' if neg else '&&'):
+        return split_and(e['lhs'], neg) + split_and(e['rhs'], neg)
+    return [_negated(e)] if neg else [e]
+
+
+def cmp_parts(x):
+    """(lhs, op, rhs) of a comparison, built-in or overloaded (std::fpos)"""
+    x = strip_all_casts(x)
+    if isinstance(x, dict) and x.get('k') == 'Bin' and x.get('op') in _NEGOP:
+        return x['lhs'], x['op'], x['rhs']
+    if isinstance(x, dict) and x.get('k') == 'Call' and x.get('ck') == 'operator' and x.get('op') in _NEGOP and len(x.get('args', [])) == 2:
+        return x['args'][0], x['op'], x['args'][1]
+    return None
 
 
 def expr_str(e):
@@ -1235,6 +1291,24 @@ def Q45(F, rep, R, FL, ws):
                nontrivial=True)
 
 
+def _iostate_value(F, name):
+    """the numeric value of std::ios_base::<name> as the front end folded it somewhere in the analysed sources"""
+    cache = F.__dict__.setdefault('_iostate', {})
+    if name not in cache:
+        cache[name] = None
+        for fns in F.functions.values():
+            for g_ in fns:
+                for n in walk(g_['body']):
+                    if n.get('k') == 'Ref' and n.get('name') == name and 'v' in n and (n.get('q') or '').startswith('std::'):
+                        cache[name] = n['v']
+                        break
+                if cache[name] is not None:
+                    break
+            if cache[name] is not None:
+                break
+    return cache[name]
+
+
 def _cmp_atoms(disjuncts):
     """(lhs, op, rhs) of every disjunct that is a comparison, negations pushed into the operator: !(a >= b) is a < b"""
     NEG = {'<': '>=', '<=': '>', '>': '<=', '>=': '<', '==': '!=', '!=': '=='}
@@ -1471,6 +1545,49 @@ def _file_alias_table(F, fn):
     return cache[key]
 
 
+def _inline_value_helper(call, fn, depth):
+    """static bool objectSizeCoversHeader(const ObjectHeaderBase & ohb) { return ohb.objectSize >= ohb.calculateHeaderSize(); } - a call of a
+    file-local function, or of a private method on this, whose body only declares single-assignment locals and returns one scalar expression
+    stands for that expression with the parameters bound to the arguments (None when that is not the case or not sound)"""
+    F = _FACTS[0]
+    cands = [c for c in F.functions.get(call.get('callee'), []) if c['sig'] == call.get('csig')]
+    if len(cands) != 1:
+        return None
+    c = cands[0]
+    if call.get('ck') == 'function':
+        if not (c.get('kind') == 'function' and c.get('file') == fn.get('file')):
+            return None
+    elif call.get('ck') == 'member':
+        o = strip_all_casts(call.get('obj')) if call.get('obj') is not None else None
+        if not (c.get('access') == 2 and not call.get('virt') and c.get('class') == fn.get('class') and (o is None or (isinstance(o, dict) and o.get('k') == 'This'))):
+            return None
+    else:
+        return None
+    rt = (c.get('ret') or '').replace('const ', '')
+    if not (rt == 'bool' or rt.startswith('uint') or rt.startswith('int') or rt in ('std::streamsize', 'std::streamoff', 'size_t', 'std::size_t', 'unsigned int', 'long', 'unsigned long')):
+        return None
+    body = c.get('body') or {}
+    stmts = body.get('body', []) if body.get('k') == 'Compound' else [body]
+    if not stmts or any(not isinstance(x, dict) or x.get('k') not in ('Decl', 'Return') for x in stmts) or stmts[-1].get('k') != 'Return' or \
+            sum(1 for x in walk(body, into_lambda=False) if x.get('k') == 'Return') != 1 or stmts[-1].get('value') is None:
+        return None
+    params = c.get('params', [])
+    args = [a for a in call.get('args', [])]
+    if len(params) != len(args):
+        return None
+    try:
+        bound = flow.Flow.bind_params(params, args, stmts[-1]['value'])
+    except Exception:
+        return None
+    pids = {p_['id'] for p_ in params}
+    if any(x.get('k') == 'Ref' and x.get('dk') == 'parm' and x.get('id') in pids for x in walk(bound)):
+        return None     # a parameter could not be bound soundly
+    inner = deep_resolve(deep_resolve(bound, c, depth + 1), fn, depth + 1)
+    if isinstance(inner, dict) and c.get('ret') and inner.get('t') != rt:
+        inner = {'k': 'Cast', 'style': 'decl', 'cast': 'Conversion', 't': rt, 'from': inner.get('t'), 'sub': inner, 'l': call.get('l')}
+    return inner
+
+
 def deep_resolve(e, fn, depth=0):
     """copy of the expression with every single-assignment local replaced by its initialiser (copy propagation):
     `const auto n = f(); g(n)` is analysed as `g(f())`"""
@@ -1487,6 +1604,10 @@ def deep_resolve(e, fn, depth=0):
         if isinstance(r, dict) and e.get('t') and r.get('t') and e['t'] != r['t'] and e['t'].replace('const ', '') != r['t'].replace('const ', ''):
             return {'k': 'Cast', 'style': 'decl', 'cast': 'Conversion', 't': e['t'].replace('const ', ''), 'from': r.get('t'), 'sub': r, 'l': e.get('l')}
         return r
+    if e.get('k') == 'Call' and e.get('calleeInRoot') and _FACTS[0] is not None and depth < 4:
+        r = _inline_value_helper(e, fn, depth)
+        if r is not None:
+            return r
     out = {}
     for k, v in e.items():
         if isinstance(v, dict):
@@ -1529,6 +1650,28 @@ def Q(F, rep, R, FL):
                 p = member_path(n.get('obj'))
                 if p and p[-1] == 'm_queue':
                     ops.setdefault(fn['simple'], []).append(n['fn'])
+    # what a private helper does to the storage counts for the operations that call it (deleteQueuedObjects() for the destructor)
+    meths = methods_of(F, cls)
+    priv = {f['simple'] for f in meths if f.get('access') == 2}
+    calls = {}
+    for fn in meths:
+        for n in walk(fn['body']):
+            if n.get('k') == 'Call' and n.get('ck') == 'member' and n.get('clsq') == cls and n.get('fn') in priv:
+                o = strip_all_casts(n.get('obj'))
+                if isinstance(o, dict) and o.get('k') == 'This':
+                    calls.setdefault(fn['simple'], set()).add(n['fn'])
+    changed = True
+    while changed:
+        changed = False
+        for m, hs in calls.items():
+            for h in list(hs):
+                for x in ops.get(h, []):
+                    if x not in ops.setdefault(m, []):
+                        ops[m].append(x)
+                        changed = True
+    called = {h for hs in calls.values() for h in hs}
+    for h in priv & called:
+        ops.pop(h, None)
     allowed = {'read': {'empty', 'front', 'pop'}, 'write': {'size', 'push'}, '~ObjectQueue': {'empty', 'front', 'pop'}}
     for m, lst in sorted(ops.items()):
         rep.count('Q1')
@@ -1577,6 +1720,16 @@ def Q(F, rep, R, FL):
         rdstate = [e for e in evs if e['ev'] == 'assign' and (member_path(e['n'].get('lhs') or (e['n'].get('args') or [None])[0]) or (None,))[-1] == 'm_rdstate']
         sets_eof = any('eofbit' in str([x.get('q') for x in walk(e['n'])]) for e in rdstate)
         sets_good = any('goodbit' in str([x.get('q') for x in walk(e['n'])]) for e in rdstate)
+        # a named constant (const std::ios_base::iostate endOfQueueState = eofbit | failbit;) is folded by the front end: decide on the value
+        eofv = _iostate_value(F, 'eofbit')
+        for e in rdstate:
+            rhs = e['n'].get('rhs') if e['n'].get('k') == 'Bin' else (e['n'].get('args') or [None, None])[1:2][0] if len(e['n'].get('args') or []) > 1 else None
+            rv = strip_all_casts(rhs) if rhs is not None else None
+            if isinstance(rv, dict) and rv.get('k') == 'Ref' and rv.get('dk') == 'global' and 'v' in rv and eofv:
+                if rv['v'] & eofv:
+                    sets_eof = True
+                elif rv['v'] == 0:
+                    sets_good = True
         ret = [e for e in evs if e['ev'] == 'return']
         if impure:
             ok = False
